@@ -206,8 +206,9 @@ static cbor_item_t* gen_container(int depth, int g) {
       return m;
     }
     case 4: {
-      static const uint64_t TV[] = {0, UINT64_MAX, 23, 24, 65536};
-      uint64_t tv = TV[pick(g == G_FULL ? 5 : 2)];
+      /* tag numbers on both sides of every head-width boundary, and of the signed 32-bit maximum */
+      static const uint64_t TV[] = {0, UINT64_MAX, 23, 24, 65536, 255, 256, 65535, 0x7fffffffull, 0x80000000ull, 0xffffffffull, 0x100000000ull};
+      uint64_t tv = TV[pick(g == G_FULL ? 12 : 2)];
       unsigned how = pick(2);
       cbor_item_t* x = gen(depth - 1, cg);
       if (!x) return NULL;
